@@ -85,6 +85,9 @@ def main(prop, tier, seed):
                         shapes=nshape, by_kind=by_kind, depth='<=3 (quick) / <=4 (thorough)', seed=seed)]
     if prop == 'C09':
         errpath.safe(errpath.add_enumerators, rep, 'C09.errpath')
+    if prop == 'C01':
+        try: wrapper_no_false_alarm(rep)
+        except Exception: rep.error('C01 wrapper_no_false_alarm: ' + traceback.format_exc()[-1500:])
     if prop == 'C02':
         try: nested_reach(rep)
         except Exception: rep.error('C02 nested_reach: ' + traceback.format_exc()[-1500:])
@@ -118,3 +121,30 @@ def nested_reach(rep):
                     solver_output='bounded run-time contract on the real API (not a proof)', replay=dict(reproduced=True, detail=f'is_bearable({obj_src}, {hint_src}) is True for every forced draw 0..4095'),
                     replay_script=f"from pyvc import shapes, replaylib\nfrom beartype import BeartypeConf\nbad = [r for r in range(4096) if replaylib.real_verdict(eval({obj_src!r}, dict(shapes.NS)), shapes.ev({hint_src!r}), BeartypeConf(), r)[0] == 'reject']\nprint('draws that reject:', bad[:5]); sys.exit(0 if bad else 1)\n")
     rep.bounded.append(dict(kind='reachability of a single violating item of a sequence nested in a sequence, all draws 0..4095 (bounded stand-in, NOT counted as proved)', scenarios=n))
+
+
+C01_SIGS = [[('pk', False, False), ('vk', True, False)], [('ko', False, False), ('vk', True, False)], [('pk', True, False), ('pk', False, True), ('vk', True, False)],
+            [('po', True, False), ('va', True, False), ('ko', False, True), ('vk', True, False)], [('pk', False, False), ('va', True, False)], [('po', False, False), ('pk', True, True), ('ko', True, False)],
+            [('pk', True, False), ('ko', False, False), ('ko', True, True), ('vk', True, False)], [('po', True, True), ('vk', False, False)], [('pk', False, True), ('pk', True, True)], [('va', True, False), ('vk', True, False)]]
+def _c01_wrap_worker(sig):
+    from pyvc import wrapcheck
+    return wrapcheck.wrapper_obligations(sig, True)
+def wrapper_no_false_alarm(rep):
+    """C01 through a decorated callable (captured wrapper text, arbitrary args/kwargs): a parameter violation is only ever raised about a value
+    Python binds to an ANNOTATED parameter and that does not conform to its hint - so a call whose passed annotated values all conform is
+    never rejected, however the values were passed and whatever unannotated parameters sit next to them."""
+    with mp.get_context('fork').Pool(min(10, int(os.environ.get('VERIF_PROCS', '16')))) as pool:
+        recs = pool.map(_c01_wrap_worker, C01_SIGS)
+    n = 0
+    for rec in recs:
+        tag = f'C01.wrap[{rec.get("src", str(rec["sig"])).splitlines()[0][4:-1] if rec.get("src") else rec["sig"]}]'
+        if rec['error']: rep.error(f'{tag}: {rec["error"]}'); continue
+        for o in rec['obligations']:
+            if not (o['name'].startswith('post.a.') or o['name'].startswith('post.return_violation_justified') or o['name'].startswith('defined')): continue
+            n += 1; rp = o.get('replay'); script = None
+            if rp and rp.get('reproduced'):
+                script = (f'from pyvc import wrapcheck\nok, d = wrapcheck.replay_c04({rec["sig"]!r}, True, "BeartypeConf()", {rp.get("args")!r}, {rp.get("kwargs")!r})\n'
+                          'print("REPRODUCED" if ok else "not reproduced", d)\nsys.exit(1 if ok else 0)\n')
+            rep.add(f'{tag}.{o["name"]}', o['status'], time=o.get('time'), backend=o.get('backend'), where=o.get('where'), replay=rp, solver_output=o.get('solver_output'), replay_script=script, bounded=True)
+    if not n: rep.error('C01 wrapper_no_false_alarm: no obligation')
+    rep.functions.append('wrapper text generated for 10 signatures with annotated variadics next to unannotated parameters (mode G; shared with C04)')
